@@ -252,7 +252,8 @@ class ExprMixin:
             return self.call_function(st, k, [obj], {}, lineno, recv_ty=ty)
         if ty == "Path":
             return [Res(st, self.path_attr(st, obj, attr))]
-        if ty in self.reg.classes and self.reg.lookup2(ty, attr, self.functions, self.reg.contracts):
+        if ty in self.reg.classes and self.reg.field_type(ty, attr) is None and not self.declares_field(ty, attr) \
+                and self.reg.lookup2(ty, attr, self.functions, self.reg.contracts):
             # bound method used as a value (callback): injective in the receiver
             bm = z3.Function("bound_method", Val, z3.StringSort(), Val)
             bm_self = z3.Function("bm_self", Val, Val)
@@ -303,6 +304,9 @@ class ExprMixin:
             todo.extend(x.children())
         return out
 
+    def declares_field(self, ty, attr):
+        return any(attr in self.reg.classes.get(c, {}).get("fields", {}) for c in self.reg.mro(ty))
+
     def path_attr(self, st, obj, attr):
         p = vp(obj.t)
         if attr == "parent": return V(Val.PathV(p_parent(p)), "Path")
@@ -331,7 +335,15 @@ class ExprMixin:
 
     def try_merge(self, st, rs):
         """merge results of a pure expression into one ite value (keeps the number of paths small)"""
-        if len(rs) > 1 and all(r.ok and self.same_state(st, r.st) for r in rs):
+        if len(rs) > 1 and self.spec_depth and all(r.ok for r in rs):
+            return [Res(st, self.merge(st, rs))]       # clauses are pure: plain ite over the branch conditions
+        if len(rs) > 1 and all(r.ok and not r.st.undecided for r in rs) and self.merging:
+            tys = {base_type(r.val.ty) for r in rs if r.val.ty is not None}
+            if len(tys) <= 1:
+                m = self.merge_states([r.st for r in rs], values=[r.val for r in rs])
+                if m is not None:
+                    return [Res(m[0], m[1])]
+        if len(rs) > 1 and all(r.ok and self.same_state(st, r.st) and len(r.st.pc) <= len(st.pc) + 1 for r in rs):
             return [Res(st, self.merge(st, rs))]
         return rs
 
@@ -561,7 +573,7 @@ class ExprMixin:
                 j = z3.If(i < 0, ln + i, i)
                 return z3.If(j < 0, 0, z3.If(j > ln, ln, j))
             a = norm(vs[1]); b = norm(vs[2]) if len(vs) > 2 else ln
-            sub = z3.SubSeq(seq, a, z3.If(b > a, b - a, 0))
+            sub = self.subseq(s, seq, a, z3.If(b > a, b - a, 0))
             return [Res(s, self.new_list(s, sub, c.ty))]
         return self.evseq(st, nodes, k)
 
@@ -573,6 +585,16 @@ class ExprMixin:
 
     def ev_Set(self, st, n):
         return self.evseq(st, n.elts, lambda s, vs: [Res(s, self.new_list(s, self.mkseq(vs), "set"))])
+
+    def subseq(self, st, seq, start, length):
+        """fresh sequence equal to seq[start:start+length], with the element-wise consequences stated explicitly"""
+        res = z3.Const(fresh_name("sub"), SeqV)
+        k = fresh_int("k")
+        st.assume(res == z3.SubSeq(seq, start, length), definitional=True)
+        st.assume(z3.Implies(z3.And(start >= 0, length >= 0, start + length <= z3.Length(seq)), z3.Length(res) == length), definitional=True)
+        st.assume(qforall([k], z3.Implies(z3.And(0 <= k, k < length, start >= 0, start + length <= z3.Length(seq)), res[k] == seq[k + start]),
+                          patterns=[res[k]]), definitional=True)
+        return res
 
     def mkseq(self, vs):
         if not vs:
